@@ -15,7 +15,7 @@ ROOT = os.path.dirname(os.path.dirname(os.path.abspath(__file__)))
 ENV = dict(os.environ, GOFLAGS="-mod=mod", GOPROXY="off", GIT_CONFIG_GLOBAL="/dev/null")
 
 def sh(cmd, cwd, timeout=1800):
-    r = subprocess.run(cmd, cwd=cwd, env=ENV, shell=True, stdout=subprocess.PIPE, stderr=subprocess.STDOUT, text=True, timeout=timeout)
+    r = subprocess.run(cmd, cwd=cwd, env=ENV, shell=True, stdout=subprocess.PIPE, stderr=subprocess.STDOUT, text=True, errors="replace", timeout=timeout)
     return r.returncode, r.stdout
 
 def main():
@@ -82,7 +82,7 @@ def main():
         meta["checks"] = {}
         for c in checks:
             t0 = time.time()
-            r = subprocess.run([os.path.join(ROOT, "check"), c, tier], env=dict(os.environ, VERIF_REPO=wt), stdout=subprocess.PIPE, stderr=subprocess.STDOUT, text=True)
+            r = subprocess.run([os.path.join(ROOT, "check"), c, tier], env=dict(os.environ, VERIF_REPO=wt), stdout=subprocess.PIPE, stderr=subprocess.STDOUT, text=True, errors="replace")
             viol = [l for l in r.stdout.splitlines() if l.startswith("VIOLATION")]
             i = r.stdout.find("VIOLATION")
             meta["checks"][c] = {"tier": tier, "exit": r.returncode, "caught": r.returncode == 1, "wall_s": round(time.time()-t0, 1),
